@@ -90,6 +90,32 @@ func runC11(c *Ctx, r *Report) {
 		r.Floor("R-C11.11", "exits of the exclusion gate", nx, 2)
 	}
 	r.Doc("R-C11.12", "a configured timeout is applied: on every path on which the timeout is not known to be non-positive, the work is started with a context derived by WithTimeout from the configured value")
+	r.Doc("R-C11.13", "an unbounded fetch follows every link kind of every fetched entry (adopted from C09): entries reachable only through references past an unretrievable block are still returned")
+	importRules(c, r, "C09", []string{"R-C09.3", "R-C09.4"}, "R-C11.13")
+	r.Doc("R-C11.14", "whether a hash was already queued, requested or fetched is decided by its presence in the task cache, not by the value stored for it (the first task state is the zero value)")
+	{
+		ex := p.FuncI("entry", "Fetcher", "exclude")
+		cacheF := p.Field("entry", "Fetcher", "tasksCache")
+		nlook := 0
+		walkNoLit(ex.Body, func(n ast.Node) bool {
+			ix, ok := n.(*ast.IndexExpr)
+			if !ok {
+				return true
+			}
+			if v, _ := p.FieldSel(ex, ix.X); v != cacheF {
+				return true
+			}
+			nlook++
+			commaOK := false
+			if as, ok := p.ParentIn(ex, ix).(*ast.AssignStmt); ok && len(as.Lhs) == 2 && len(as.Rhs) == 1 && as.Rhs[0] == ast.Expr(ix) {
+				commaOK = true
+			}
+			r.Check(commaOK, "R-C11.14", r.Key("R-C11.14", ex, "presence-test", ""), ix.Pos(), "the gate asks whether the hash is in the task cache",
+				"the exclusion gate looks at the value stored for the hash instead of its presence: the state of a hash that is queued but not yet dispatched is the zero value, so it looks unknown and is queued — and requested — again")
+			return true
+		})
+		r.Floor("R-C11.14", "task-cache lookups in the exclusion gate", nlook, 1)
+	}
 	{
 		fe := p.FuncI("entry", "Fetcher", "Fetch")
 		timeoutF := p.Field("entry", "Fetcher", "timeout")
